@@ -54,6 +54,8 @@ func init() {
 		"internal/bytealg.Equal":              iBytesEqual,
 		"bytes.Equal":                         iBytesEqual,
 		"internal/abi.NoEscape":               iIdentity,
+		"internal/stringslite.Clone":          iIdentity,
+		"strings.Clone":                       iIdentity,
 		"internal/abi.Escape":                 iIdentity,
 		"(*strings.Builder).WriteString":      iBuilderWriteString,
 		"(*strings.Builder).WriteByte":        iBuilderWriteByte,
@@ -599,6 +601,11 @@ func (ex *Exec) fmtUintAlts(st *State, v *Term, base int, upper bool) []Alt {
 			if lo > maxv {
 				break
 			}
+			if lo > 0 {
+				if can, _ := ex.feasibleOne(st, mkCmp(OpUle, mkBV(64, lo), v64)); !can {
+					break
+				}
+			}
 			var cond *Term
 			if k*sh >= 64 {
 				cond = mkCmp(OpUle, mkBV(64, lo), v64)
@@ -632,6 +639,12 @@ func (ex *Exec) fmtUintAlts(st *State, v *Term, base int, upper bool) []Alt {
 		if lo > maxv {
 			break
 		}
+		if lo > 0 {
+			// larger magnitudes are all infeasible once this one is: one query prunes the rest
+			if can, _ := ex.feasibleOne(st, mkCmp(OpUle, mkBV(64, lo), v64)); !can {
+				break
+			}
+		}
 		var hi uint64
 		last := k == 20
 		if !last {
@@ -640,28 +653,42 @@ func (ex *Exec) fmtUintAlts(st *State, v *Term, base int, upper bool) []Alt {
 		ds := make([]*Term, k)
 		sum := mkBV(64, 0)
 		p := uint64(1)
-		var cs []*Term
+		var defs []*Term
 		for i := 0; i < k; i++ {
 			// named after the value term: formatting the same value twice yields the same digits
 			d := mkVar(fmt.Sprintf("digit.t%d.%d.%d", v64.id, k, i), SBV(8))
 			ds[i] = d
-			cs = append(cs, mkCmp(OpUle, d, mkBV(8, 9)))
+			defs = append(defs, mkCmp(OpUle, d, mkBV(8, 9)))
 			sum = mkBin(OpAdd, sum, mkBin(OpMul, mkZext(d, 64), mkBV(64, p)))
 			p *= 10
 		}
 		if k > 1 {
-			cs = append(cs, mkCmp(OpUle, mkBV(8, 1), ds[k-1]))
+			defs = append(defs, mkCmp(OpUle, mkBV(8, 1), ds[k-1]))
 		}
+		var cs []*Term
 		cs = append(cs, mkCmp(OpUle, mkBV(64, lo), v64))
 		if !last {
 			cs = append(cs, mkCmp(OpUlt, v64, mkBV(64, hi)))
 		}
-		cs = append(cs, mkEq(sum, v64))
+		defs = append(defs, mkEq(sum, v64))
 		bs := make([]*Term, k)
 		for i := 0; i < k; i++ {
 			bs[k-1-i] = digitChar(ds[i])
 		}
-		alts = append(alts, Alt{cond: mkAnd(cs...), val: mkStrBytes(bs)})
+		kk := k
+		dsc := ds
+		alts = append(alts, Alt{cond: mkAnd(cs...), val: mkStrBytes(bs), defs: defs, fix: func(m Model) Model {
+			val, ok := evalTerm(v64, m)
+			if !ok {
+				return m
+			}
+			nm := overlay(m, nil)
+			for i := 0; i < kk; i++ {
+				nm[dsc[i].id] = val % 10
+				val /= 10
+			}
+			return nm
+		}})
 		if last {
 			break
 		}
@@ -689,12 +716,25 @@ func (ex *Exec) fmtIntAlts(st *State, v *Term, signed bool, base int, upper bool
 		// syntactically non-negative
 		return ex.fmtUintAlts(st, v64, base, upper)
 	}
-	for _, a := range ex.fmtUintAlts(st, v64, base, upper) {
-		alts = append(alts, Alt{cond: mkAnd(mkNot(neg), a.cond), val: a.val})
+	canNeg, _ := ex.feasibleOne(st, neg)
+	if !canNeg {
+		// non-negative on this path: format as the unsigned value bounded by MaxInt64
+		st.addPC(mkNot(neg))
+		return ex.fmtUintAlts(st, v64, base, upper)
+	}
+	// positive side: explore under the assumption (temporarily) that v >= 0
+	stPos := *st
+	stPos.pc = append(append([]*Term(nil), st.pc...), mkNot(neg))
+	stPos.modelOK = false
+	for _, a := range ex.fmtUintAlts(&stPos, v64, base, upper) {
+		alts = append(alts, Alt{cond: mkAnd(mkNot(neg), a.cond), val: a.val, defs: a.defs, fix: a.fix})
 	}
 	mag := mkNeg(v64)
-	for _, a := range ex.fmtUintAlts(st, mag, base, upper) {
-		alts = append(alts, Alt{cond: mkAnd(neg, a.cond), val: strConcat(mkStr("-"), a.val.(*StrV))})
+	stNeg := *st
+	stNeg.pc = append(append([]*Term(nil), st.pc...), neg)
+	stNeg.modelOK = false
+	for _, a := range ex.fmtUintAlts(&stNeg, mag, base, upper) {
+		alts = append(alts, Alt{cond: mkAnd(neg, a.cond), val: strConcat(mkStr("-"), a.val.(*StrV)), defs: a.defs, fix: a.fix})
 	}
 	return alts
 }
@@ -830,12 +870,18 @@ func (ex *Exec) fmtArg(st *State, sp fmtSpec, arg IfaceV) fmtPiece {
 			s := v
 			if sp.hasPrec && sp.prec < s.Len() {
 				if !s.conc {
-					// precision counts runes; only ASCII-safe when bytes are concrete
-					unsup("%%.Ns on symbolic string")
-				}
-				r := []rune(s.c)
-				if sp.prec < len(r) {
-					s = mkStr(string(r[:sp.prec]))
+					// precision counts runes: bytes == runes only for ASCII
+					for _, b := range s.Bytes() {
+						if umax(b) >= 0x80 {
+							unsup("%%.Ns on symbolic non-ASCII string")
+						}
+					}
+					s = s.Slice(0, sp.prec)
+				} else {
+					r := []rune(s.c)
+					if sp.prec < len(r) {
+						s = mkStr(string(r[:sp.prec]))
+					}
 				}
 			}
 			if sp.hasWidth && !s.conc {
@@ -919,7 +965,7 @@ func (ex *Exec) fmtArg(st *State, sp fmtSpec, arg IfaceV) fmtPiece {
 					s = strConcat(mkStr(" "), s)
 				}
 			}
-			out[i] = Alt{cond: a.cond, val: pad(s, sp, !sp.minus)}
+			out[i] = Alt{cond: a.cond, val: pad(s, sp, !sp.minus), defs: a.defs, fix: a.fix}
 		}
 		return fmtPiece{alts: out}
 	}
@@ -966,7 +1012,19 @@ func combinePieces(pieces []fmtPiece) []Alt {
 		var nr []Alt
 		for _, r := range res {
 			for _, a := range p.alts {
-				nr = append(nr, Alt{cond: mkAnd(r.cond, a.cond), val: strConcat(r.val.(*StrV), a.val.(*StrV))})
+				na := Alt{cond: mkAnd(r.cond, a.cond), val: strConcat(r.val.(*StrV), a.val.(*StrV))}
+				na.defs = append(append([]*Term(nil), r.defs...), a.defs...)
+				f1, f2 := r.fix, a.fix
+				na.fix = func(m Model) Model {
+					if f1 != nil {
+						m = f1(m)
+					}
+					if f2 != nil {
+						m = f2(m)
+					}
+					return m
+				}
+				nr = append(nr, na)
 			}
 		}
 		res = nr
@@ -979,9 +1037,42 @@ func combinePieces(pieces []fmtPiece) []Alt {
 
 func iSprintf(ex *Exec, st *State, fr *Frame, dst ssa.Value, args []Value) {
 	format := args[0].(*StrV)
-	va := st.sliceVals(args[1].(SliceV))
-	alts := combinePieces(ex.sprintf(st, format, va))
-	ex.forkAlts(st, fr, dst, alts)
+	va := append([]Value(nil), st.sliceVals(args[1].(SliceV))...)
+	ex.withConcreteStr(st, fr, format, func(ex *Exec, s2 *State, f2 *Frame, f *StrV) {
+		alts := combinePieces(ex.sprintf(s2, f, va))
+		ex.forkAlts(s2, f2, dst, alts)
+	})
+}
+
+// withConcreteStr pins the symbolic bytes of s one at a time (forking over
+// their feasible values, at most 64 each) and calls cont with a concrete string.
+func (ex *Exec) withConcreteStr(st *State, fr *Frame, s *StrV, cont func(ex *Exec, s2 *State, f2 *Frame, c *StrV)) {
+	if s.conc {
+		cont(ex, st, fr, s)
+		return
+	}
+	bs := s.Bytes()
+	idx := -1
+	for i, b := range bs {
+		if !b.IsConst() {
+			idx = i
+			break
+		}
+	}
+	vals, ok := ex.concretize(st, bs[idx], 64)
+	if !ok || len(vals) == 0 {
+		unsup("symbolic string byte with more than 64 feasible values where a concrete string is required")
+	}
+	var alts []Alt
+	for _, v := range vals {
+		v := v
+		alts = append(alts, Alt{cond: mkEq(bs[idx], mkBV(8, v)), then: func(ex *Exec, s2 *State, f2 *Frame) {
+			nb := append([]*Term(nil), bs...)
+			nb[idx] = mkBV(8, v)
+			ex.withConcreteStr(s2, f2, mkStrBytes(nb), cont)
+		}})
+	}
+	ex.forkAlts(st, fr, nil, alts)
 }
 
 func iErrorf(ex *Exec, st *State, fr *Frame, dst ssa.Value, args []Value) {
